@@ -114,6 +114,12 @@ CHECKS["C19"] = {
     "technique": "symbolic execution (CrossHair/z3) of the real DBFS store against a fake dbutils over a file-system model; commit-type spelling, versions per step and contents as solver variables",
 }
 
+CHECKS["C18"] = {
+    "text": "(1) Kernel: dds._plotting._structure on interaction trees of up to 7 nodes whose attributes - kept or not, named arguments, shared signature at the same / another path, loads of earlier kept or committed paths - are solver variables (enumerated through the solver, exhaustive per family), against a declarative specification: acyclic; nodes = kept paths + paths loaded by kept functions; solid edge u->v iff v reaches the keep of u through non-kept nodes only; dashed edge iff v itself loads u; any other edge dotted, from an earlier sibling's head node to a keep with named arguments. (2) Real evaluation with and without dds_export_graph on 8 template entry points: same result, signatures, blobs and paths; the dot text parsed back contains every kept path and is acyclic.",
+    "design_ref": "DESIGN.md 5-C18",
+    "technique": "symbolic execution (CrossHair/z3) of _structure on interaction trees with symbolic attributes against a declarative graph specification; export vs no-export differential on templates",
+}
+
 NOT_APPLICABLE = {}
 
 
